@@ -1,8 +1,11 @@
 #!/bin/bash
 # try_seed.sh <seed-name> <check-id>...   applies the seeded patch to /repo, runs the checks, reverts.
+# Evidence files are saved and restored: evidence committed in /verif must come from the unchanged tree.
 NAME=$1; shift
-cd /repo && git apply /verif/seeded/$NAME/patch.diff || exit 3
+mkdir -p /verif/.cache/evsave && cp /verif/evidence/*.json /verif/.cache/evsave/ 2>/dev/null
+cd /repo && git apply /verif/seeded/$NAME/patch.diff || { echo "PATCH-DOES-NOT-APPLY $NAME"; exit 3; }
 for P in "$@"; do
   (cd /verif && ./check $P --tier quick 2>&1 | grep -E "^(VIOLATION|OK|KNOWN|INFRA)" | cut -c1-300)
 done
 cd /repo && git checkout -- src
+cp /verif/.cache/evsave/*.json /verif/evidence/ 2>/dev/null
